@@ -8,7 +8,7 @@ for d in sorted(os.listdir(root)):
         continue
     notes = open(os.path.join(p, 'notes.md')).read() if os.path.exists(os.path.join(p, 'notes.md')) else ''
     res = open(os.path.join(p, 'result.txt')).read() if os.path.exists(os.path.join(p, 'result.txt')) else ''
-    m = re.match(r'[A-Z]_(C\d+)_(\d+)', d)
+    m = re.search(r'_(C\d\d)', d)
     prop = m.group(1) if m else None
     checks = {}
     for mm in re.finditer(r'(C\d+):rc=(\d+):([^ \n]*)', res):
